@@ -138,6 +138,10 @@ fn check_state(cx: &mut Ctx, node: &mut Node, h: &mut Hist, what: &str) -> bool 
 	let head = chain.head().unwrap().last_block_h;
 	let st = h.state(&head);
 	cx.checks += 1;
+	cx.run.eval(
+		&format!("{};{};outputs_band={};unspent_in_first_chunk_band={}", cx.scenario, what, st.outs.len() / 128, st.unspent_idx().iter().filter(|i| **i < 1024).count() / 64),
+		st.outs.len() > 1024,
+	);
 	// the cheap, central comparison: incremental accumulator vs from-scratch commitment
 	let roots = chain.txhashset().read().roots().unwrap();
 	let want = st.bitmap_root();
@@ -565,7 +569,7 @@ fn main() {
 		 back; (3) blocks identical to an honest one except that output_root commits to another bitmap (spent marked unspent, unspent \
 		 marked spent, parent-state bitmap, extra chunk) must be refused; (4) random mix of spends, growth, winning forks and reopen. \
 		 After EVERY accepted block: node bitmap root == commitment computed from scratch over the replayed unspent set; at \
-		 checkpoints the full reference comparison; restart must not change the root. Non-trivial = state with >= 2 chunks.",
+		 checkpoints the full reference comparison; restart must not change the root. One evaluation per compared state (distinct by scenario, step kind, output-count band, occupancy band of the first chunk; non-trivial = state with >= 2 chunks) and per forged variant.",
 	);
 	run.assume("SKIP_POW delivery; heights >= 6 so the merged (bitmap-binding) output root is in force for the scenario blocks");
 	let sc = Scratch::new("c15");
